@@ -462,6 +462,44 @@ pub fn gen_c09(c: &mut Ctx) {
                     }
                 }
             }
+            // a multi-byte character laid across / next to every 16-byte block boundary, once with
+            // the byte length right and once with the character count right (seed C09-f: a parser
+            // that slices the string per block before looking at the characters)
+            {
+                let a = gen_dense(&mut c.rng, n);
+                let s: Vec<u8> = hexstr_of(&a).into_bytes();
+                let w = s.len();
+                let mut bounds: Vec<usize> = (0..=w / 16).map(|k| k * 16).collect();
+                if bounds.len() > 6 {
+                    let last = bounds[bounds.len() - 2];
+                    bounds.truncate(4);
+                    bounds.push(last);
+                }
+                for bd in bounds {
+                    for ch in ["é", "€"] {
+                        let cb = ch.as_bytes();
+                        for back in 0..=cb.len() {
+                            // the character starts `back` bytes before the boundary
+                            if bd < back {
+                                continue;
+                            }
+                            let st = bd - back;
+                            if st + cb.len() <= w {
+                                // byte length kept
+                                let mut m = s.clone();
+                                m.splice(st..st + cb.len(), cb.iter().cloned());
+                                p!(c, "fromhex {} {} {}", ty, n, show_bytes(&m));
+                            }
+                            if st < w {
+                                // character count kept
+                                let mut m = s.clone();
+                                m.splice(st..st + 1, cb.iter().cloned());
+                                p!(c, "fromhex {} {} {}", ty, n, show_bytes(&m));
+                            }
+                        }
+                    }
+                }
+            }
             // arbitrary strings over the alphabet, lengths 0..=W+2
             let width = hexstr_of(&Tab::zero(n)).len();
             let cnt = if c.thorough { 60 } else { 16 };
@@ -601,6 +639,66 @@ pub fn gen_c04(c: &mut Ctx) {
     } else {
         vec![(4, n4), (5, 60), (6, 6), (7, 1)]
     };
+    // several-word tables with structure: a few literals ANDed / XORed, and tables with whole
+    // words zero - on random tables a comparison that looks at one word only is right with
+    // probability 1 - 2^-64 (seed C04-c: early exit when the low word of the best is zero)
+    let cnt = if c.thorough { 60 } else { 14 };
+    for n in 7..=9usize {
+        for k in 0..cnt {
+            let t = match k % 4 {
+                0 | 1 => {
+                    // AND (k%4==0) or XOR of 2..4 literals, the highest variable always among them
+                    let nl = 2 + c.rng.below(3);
+                    let mut vars = vec![n - 1 - c.rng.below(n - 6)];
+                    while vars.len() < nl {
+                        let v = c.rng.below(n);
+                        if !vars.contains(&v) {
+                            vars.push(v);
+                        }
+                    }
+                    let pol: Vec<bool> = vars.iter().map(|_| c.rng.coin()).collect();
+                    let is_and = k % 4 == 0;
+                    Tab::from_fn(n, |m| {
+                        let mut acc = is_and;
+                        for (v, p) in vars.iter().zip(pol.iter()) {
+                            let b = ((m >> v) & 1 != 0) != *p;
+                            if is_and {
+                                acc &= b;
+                            } else {
+                                acc ^= b;
+                            }
+                        }
+                        acc
+                    })
+                }
+                2 => {
+                    // most words zero, the others sparse
+                    let mut t = gen_tab(&mut c.rng, n);
+                    for w in t.w.iter_mut() {
+                        if c.rng.below(3) != 0 {
+                            *w = 0;
+                        } else {
+                            *w &= c.rng.next() & c.rng.next();
+                        }
+                    }
+                    t
+                }
+                _ => {
+                    // one word carries a small function, all others zero
+                    let mut t = Tab::zero(n);
+                    let nw = t.w.len();
+                    let q = c.rng.below(nw);
+                    t.w[q] = [0x5555555555555555u64, 0x3333333333333333, 0x0f0f0f0f0f0f0f0f, 0x8000000000000000, 1, 0x6996966996696996][c.rng.below(6)];
+                    t
+                }
+            };
+            let ty = if c.rng.coin() { "S" } else { "D" };
+            p!(c, "ncanon {} {}", ty, t.show());
+            if n == 7 || (c.thorough && n == 8 && k % 6 == 0) {
+                p!(c, "pcanon {} {}", ty, t.show());
+            }
+        }
+    }
     for (n, cnt) in plan {
         for k in 0..cnt {
             let mut t = gen_tab(&mut c.rng, n);
